@@ -40,6 +40,10 @@ MUTANTS = [
  {"id": "veclit-form-benign", "kind": "benign", "edits": [{"patch": "/verif/benign/dewey-2/patch.diff"}]},
  {"id": "slicepat-cut-two-past-match", "kind": "break", "edits": [{"patch": "/verif/benign/m-dewey-2/patch.diff"}, (D, "let inclusive = pattern[index + 1..].starts_with('=');", "let inclusive = pattern[index + 2..].starts_with('=');")], "expect": ["PANIC@dewey::Dewey::new#call:index"]},
  {"id": "slicepat-third-record-without-length", "kind": "break", "edits": [{"patch": "/verif/benign/m-dewey-2/patch.diff"}, (D, "        let pkgname = pattern[0..deweyops[0].0].to_string();", "        let pkgname = pattern[0..deweyops[0].0].to_string();\n        let _third = deweyops[2].0;")], "expect": ["PANIC@dewey::Dewey::new#call:index"]},
+ {"id": "matcharm-form-benign", "kind": "benign", "edits": [{"patch": "/verif/benign/m-distinfo-2/patch.diff"}]},
+ {"id": "stripform-benign", "kind": "benign", "edits": [{"patch": "/verif/benign/distinfo-3/patch.diff"}]},
+ {"id": "counted-start-one-past-end", "kind": "break", "edits": [{"patch": "/verif/benign/m-distinfo-2/patch.diff"}, ("src/distinfo.rs", ".unwrap_or(line.len());\n            let line = &line[start..];", ".unwrap_or(line.len());\n            let line = &line[start + 1..];")], "expect": ["PANIC@distinfo::Line::from_bytes#call:index"]},
+ {"id": "counted-start-default-past-end", "kind": "break", "edits": [{"patch": "/verif/benign/m-distinfo-2/patch.diff"}, ("src/distinfo.rs", ".unwrap_or(line.len());\n            let line = &line[start..];", ".unwrap_or(line.len() + 1);\n            let line = &line[start..];")], "expect": ["PANIC@distinfo::Line::from_bytes#call:index"]},
  {"id": "probe-panic-division-by-len", "kind": "break", "edits": [(S, "        let slen = input_string.len();", "        let slen = input_string.len();\n        let _avg = slen / self.entries.len();")], "expect": ["PANIC"]},
  {"id": "probe-panic-remove-first-entry", "kind": "break", "edits": [(L, "        Ok(plist)\n    }\n\n    /**\n     * Return the package name as specified", "        if plist.entries.len() > 1000000 {\n            plist.entries.remove(0);\n        }\n        Ok(plist)\n    }\n\n    /**\n     * Return the package name as specified")], "expect": []},
 ]
